@@ -7,12 +7,12 @@ import tablecommon as T
 PID = "C11"
 STATIC = {
     "coverage": {
-        "functions_encoded": T.FUNCS_S + T.FUNCS_C,
+        "functions_encoded": T.FUNCS_S + T.FUNCS_C + T.FUNCS_E,
         "outside_claim": ["the client's in-flight maximum (capacity check in the dispatch before dequeuing a request) and the server channel's in_flight_requests() accessor: client::RequestDispatch / server::BaseChannel are out of CBMC's reach",
-                          "that the dispatch / channel actually call the removal path in every situation (guard drops, write failures, channel drop): only the tables' own operations are decided",
+                          "that the dispatch / channel actually call the removal path in every situation (write failures, channel drop, an execute future dropped half-way): the tables' own operations and the handle-dropped-without-execute guard are decided",
                           "histories longer than 3 operations, more than 2 tracked requests (slot reuse within those bounds is covered)"],
     },
-    "assumptions": T.ASSUMPTIONS,
+    "assumptions": T.ASSUMPTIONS + T.ASSUMPTIONS_E,
 }
 
 
@@ -24,6 +24,8 @@ def main(tier):
             client = ["cift_steps2"] + (["cift_steps3"] if tier == "thorough" else [])
             recs, viol, known, inc, wall = T.run_tables(PID, tier, s, server=server, client=client,
                                                         timeout_s=3000 if tier == "quick" else 7200, harness_timeout=1500 if tier == "quick" else 3600)
+            r, v, k, i, w = T.run_exec(PID, tier, s)
+            recs.update(r); viol += v; known += k; inc += i; wall += w
         except Inconclusive as e:
             log("INCONCLUSIVE property=%s: %s" % (PID, e))
             write_evidence(PID, tier, t0, {"evaluations": 1, "distinct_nontrivial": 0, "explanation": str(e), "samples": []}, STATIC["assumptions"], 0)
